@@ -2,7 +2,8 @@
 from engine import cside
 from engine.checks import c_common
 
-FUNCS = ['Matrix_New', 'matrix_subscr', 'matrix_ass_subscr',
+FUNCS = ['Matrix_New', 'create_indexlist', 'matrix_subscr',
+         'matrix_ass_subscr',
          'matrix_ass_subscr_noalias', 'matrix_set_size', 'matrix_new',
          'Matrix_NewFromSequence',
          'matrix_add_generic', 'matrix_sub_generic', 'matrix_mul_generic',
@@ -10,7 +11,7 @@ FUNCS = ['Matrix_New', 'matrix_subscr', 'matrix_ass_subscr',
 KINDS = ('extern-requires', 'frame', 'index-reject', 'index-accept', 'index-address', 'valid-preserved',
          'size-assigned', 'constructor-postcondition', 'typecode-preserved',
          'reject-exception', 'reject-clean', 'covered', 'shape-rule',
-         'inplace-type-rule', 'kernel-typecode')
+         'inplace-type-rule', 'kernel-typecode', 'indexlist-postcondition')
 
 
 def tasks(tier, funcs=FUNCS):
@@ -36,9 +37,8 @@ def run(report, tier, seed):
         'construction from sequences / block columns beyond Matrix_New',
         'indexed assignment with sparse right-hand sides; which element a '
         'slice pair addresses (only that it lies inside the matrix); the '
-        'body of create_indexlist (its contract - every element '
-        'of the returned index list is in [-dim, dim) - is ASSUMED: proving '
-        'it needs a quantified invariant over buffer contents); values '
+        'list branch of create_indexlist relies on its own contract '
+        '(recursive call); values '
         'stored by indexed assignment (only the addressed element is '
         'decided)',
         'construction from lists of blocks (dense_concat): only the typecode '
